@@ -114,11 +114,37 @@ class MD:
                 m = self.node(r)
                 if not m or m.get('tag') != 'DW_TAG_member':
                     continue
-                mem.append({'name': m.get('name'), 'offset': int(m.get('offset', 0)) // 8,
+                mem.append({'name': m.get('name'), 'offset': int(m.get('offset', 0)) // 8, 'type_ref': m.get('baseType'),
                             'size': int(m.get('size', 0)) // 8, 'cls': self.cls(m.get('baseType')),
                             'bitfield': 'DIFlagBitField' in str(m.get('flags', ''))})
             out[n['name']] = {'size': int(n.get('size', 0)) // 8, 'members': mem, 'ref': ref}
         return out
+
+    def flatten(self, sname, prefix='', base=0, out=None, depth=0):
+        """{byte offset: dotted scalar field name} of struct `sname`, nested structs and arrays expanded"""
+        out = {} if out is None else out
+        st = self.structs().get(sname)
+        if st is None or depth > 6:
+            return out
+        for m in st['members']:
+            self._flat_type(m['type_ref'], prefix + (m['name'] or '?'), base + m['offset'], out, depth)
+        return out
+
+    def _flat_type(self, ref, name, off, out, depth):
+        ref = self.strip(ref)
+        n = self.node(ref)
+        if n and n['kind'] == 'DICompositeType' and n.get('tag') == 'DW_TAG_structure_type' and n.get('name'):
+            self.flatten(n['name'], name + '.', off, out, depth + 1)
+            return
+        if n and n['kind'] == 'DICompositeType' and n.get('tag') == 'DW_TAG_array_type':
+            c = self.cls(ref)
+            cnt = c[2] if isinstance(c, tuple) and c[0] == 'array' else None
+            esz = int(n.get('size', 0)) // 8 // cnt if cnt else 0
+            if cnt and esz and cnt <= 64:
+                for k in range(cnt):
+                    self._flat_type(n.get('baseType'), '%s[%d]' % (name, k), off + k * esz, out, depth + 1)
+                return
+        out[off] = name
 
     def subprograms(self):
         """name -> ('fn', ret, params) for every function *defined* in the unit"""
